@@ -26,4 +26,19 @@ def skelSimHasReachedConsensusExpected : List String :=
 
 theorem skelSimHasReachedConsensus_expected : skelSimHasReachedConsensus = skelSimHasReachedConsensusExpected := rfl
 
+/-- the structure the model of `CertchainValidate` was written against -/
+def skelCertchainValidateExpected : List String :=
+  ["0:range", "1:assign:=", "1:assign:=", "1:assign:=", "1:if", "2:return1", "1:if", "2:return1", "1:assign:=",
+   "1:if", "2:return1", "1:assign:=", "1:if", "2:return1", "1:if", "2:return1", "1:assign:=", "1:if",
+   "2:return1", "1:assign:=", "1:if", "2:return1", "1:if", "2:return1", "1:assign=", "0:return1"]
+
+theorem skelCertchainValidate_expected : skelCertchainValidate = skelCertchainValidateExpected := rfl
+
+/-- the structure the model of `CertchainGetCommittee` was written against -/
+def skelCertchainGetCommitteeExpected : List String :=
+  ["0:decl", "0:if", "1:assign=", "0:else", "1:assign:=", "1:if", "2:return2", "1:assign:=", "1:assign=",
+   "0:assign:=", "0:if", "1:return2", "0:return1"]
+
+theorem skelCertchainGetCommittee_expected : skelCertchainGetCommittee = skelCertchainGetCommitteeExpected := rfl
+
 end F3.SkelTie.SkelSim
